@@ -31,7 +31,7 @@ TIERS = {
     'quick': dict(fork=True, worlds=16, runs=8, batch=1, det_runs=2, soft_timeout=240,
                   variants=['cache_ignores_timestamp', 'stale_dependants', 'timestamp_before_parse'],
                   variant_budget=20, min_tests=25, extra_workers=4),
-    'thorough': dict(fork=True, worlds=64, runs=120, batch=1, det_runs=6, soft_timeout=600,
+    'thorough': dict(fork=True, worlds=64, runs=60, batch=1, det_runs=6, soft_timeout=600,
                      variants=_VQ + ['errors_not_skipped', 'toposort_ignores_user', 'metadata_partial_cache', 'lazy_import_inside_fresh_block'],
                      variant_budget=80, min_tests=40),
 }
@@ -414,31 +414,59 @@ def reference_dump(fs, basic, user, name, limit):
         except ValueError as e:
             raise RefError('file %s is not valid JSON' % n)
 
-    order = []
-    state = {}
+    datas = {}
 
-    def dfs(n, path):
-        if state.get(n) == 'done':
-            return
-        if n in path:
+    def data(n):
+        if n not in datas:
+            datas[n] = read(n)
+        return datas[n]
+
+    def order_of(n, path=()):
+        """transitive imports of n, depth-first, each once (n itself excluded)"""
+        out = []
+        seen = set()
+
+        def dfs(m, path):
+            if m in seen:
+                return
+            if m in path:
+                raise RefError('import cycle through %s' % m)
+            for imp in data(m)['imports']:
+                dfs(imp, path + (m,))
+            seen.add(m)
+            out.append(m)
+        for imp in data(n)['imports']:
+            dfs(imp, (n,))
+        if n in seen:
             raise RefError('import cycle through %s' % n)
-        d = read(n)
-        for imp in d['imports']:
-            dfs(imp, path + (n,))
-        state[n] = 'done'
-        order.append((n, d))
-    top = read(name)
-    for imp in top['imports']:
-        dfs(imp, (name,))
-    if any(n == name for n, _ in order):
-        raise RefError('import cycle through %s' % name)
-    # the loader checks the whole user directory for cycles, the specification only what is reachable
-    with theory.fresh_theory():
-        for n, d in order:
-            for it in d['content']:
+        return out
+
+    contrib = {}
+
+    def contribution(n):
+        """what theory n contributes: its items parsed under ITS OWN transitive imports (not under whatever
+        else the importing theory happens to have loaded), items with errors skipped"""
+        if n in contrib:
+            return contrib[n]
+        exts = []
+        with theory.fresh_theory():
+            for m in order_of(n):
+                for e in contribution(m):
+                    theory.thy.unchecked_extend(e)
+            for it in data(n)['content']:
                 obj = items.parse_item(it)
                 if obj.error is None:
-                    theory.thy.unchecked_extend(obj.get_extension())
+                    e = obj.get_extension()
+                    theory.thy.unchecked_extend(e)
+                    exts.append(e)
+        contrib[n] = exts
+        return exts
+
+    top = data(name)
+    with theory.fresh_theory():
+        for m in order_of(name):
+            for e in contribution(m):
+                theory.thy.unchecked_extend(e)
         if limit != 'start':
             found = False
             for it in top['content']:
